@@ -29,7 +29,7 @@ From RV Require Import Lib.Res Repl.ClientTicks Repl.World Repl.Server Repl.Clie
   Repl.StructE2EMut_proofs Repl.StructE2ESess_proofs Repl.ValSpec.
 From RV Require Import Events.Remote Events.RemoteSpec Events.Remote_proofs Events.RemoteRun Events.RemoteRunProj_proofs
   Events.RemoteRunTick_proofs Events.RemoteRunE1_proofs Events.RemoteRunLedger_proofs Events.RemoteRunQueue_proofs
-  Events.RemoteRunOrder_proofs.
+  Events.RemoteRunOrder_proofs Events.RemoteRunOnce_proofs Events.RemoteRunE2_proofs.
 Open Scope N_scope.
 
 (* ---------- the runs with ghosts are the runs ---------- *)
@@ -95,6 +95,51 @@ Proof.
   intros c n script e g os H p slot A B C D E. pose proof (C05E_ledger_balance c n script e g os H p slot). lia.
 Qed.
 
+(* everything the client side of a slot holds was handed to the backend for that slot (every run) *)
+Theorem C05E_held_was_sent : forall c n script e g os,
+  lrun (syse_init c n) lg_init script = Ok (e, g, os) ->
+  forall slot m, In m (held_all e slot) -> In m (for_slot slot (lt_sent g)).
+Proof. exact held_in_sent. Qed.
+
+(* ---------- E2: nothing is sent twice, exactly one copy per recipient ---------- *)
+
+(* for every sequence number q and every slot: [q among the buffered events] + [q among the emissions still to come] +
+   [q among the messages handed to the backend for the slot] never increases along a run *)
+Theorem C05E_potential : forall c n rest q slot pre e g os e' g' os',
+  escript_ok (pre ++ rest) = true -> tick_frames (proj_script (pre ++ rest)) < 2 ^ 31 ->
+  lrun (syse_init c n) lg_init pre = Ok (e, g, os) -> lrun e g rest = Ok (e', g', os') ->
+  (cq q (buffer_seqs e') + cq q (future_seqs []) + count_seq q (for_slot slot (lt_sent g'))
+   <= cq q (buffer_seqs e) + cq q (future_seqs rest) + count_seq q (for_slot slot (lt_sent g)))%nat.
+Proof. exact phi_mono. Qed.
+
+(* with distinct sequence numbers an event is handed to the backend at most once per slot in the whole run *)
+Theorem C05E_sent_once : forall c n script e g os q slot,
+  escript_ok script = true -> tick_frames (proj_script script) < 2 ^ 31 -> seqs_distinct script ->
+  lrun (syse_init c n) lg_init script = Ok (e, g, os) -> (count_seq q (for_slot slot (lt_sent g)) <= 1)%nat.
+Proof. exact e2_sent_once. Qed.
+
+(* nothing is sent again on later frames: once an event is neither buffered nor among the emissions still to come, the
+   number of its messages handed to the backend for any slot is final (0 for every slot that was not a recipient) *)
+Theorem C05E_not_resent : forall c n pre rest e g os e' g' os' q slot,
+  escript_ok (pre ++ rest) = true -> tick_frames (proj_script (pre ++ rest)) < 2 ^ 31 ->
+  lrun (syse_init c n) lg_init pre = Ok (e, g, os) -> lrun e g rest = Ok (e', g', os') ->
+  cq q (buffer_seqs e) = 0%nat -> cq q (future_seqs rest) = 0%nat ->
+  count_seq q (for_slot slot (lt_sent g')) = count_seq q (for_slot slot (lt_sent g)).
+Proof. exact e2_not_resent. Qed.
+
+(* a recipient of the flush (C05_send_buffered_recipients says who they are: the authorized, not excluded connections
+   of the mode): from then on exactly one message, and exactly one copy accounted for *)
+Theorem C05E_one_copy : forall c n pre st rest e1 g1 os1 e2 o2 e3 g3 os3 slot m q,
+  escript_ok ((pre ++ [st]) ++ rest) = true -> tick_frames (proj_script ((pre ++ [st]) ++ rest)) < 2 ^ 31 ->
+  seqs_distinct ((pre ++ [st]) ++ rest) ->
+  lrun (syse_init c n) lg_init pre = Ok (e1, g1, os1) -> syse_step e1 st = Ok (e2, o2) ->
+  lrun e2 (lstep e1 g1 st e2 o2) rest = Ok (e3, g3, os3) ->
+  In (slot, m) (eo_sent o2) -> sm_seq m = q ->
+  count_seq q (for_slot slot (lt_sent g3)) = 1%nat /\
+  (count_seq q (held_all e3 slot) + count_seq q (for_slot slot (lt_got g3)) + count_seq q (for_slot slot (lt_unm g3))
+   + count_seq q (for_slot slot (lt_disc g3)) + count_seq q (for_slot slot (lt_drop g3)))%nat = 1%nat.
+Proof. exact e2_one_copy. Qed.
+
 (* ---------- E2 attribution and E3 order: the invariant of live connections ---------- *)
 
 Theorem C05E_invariant : forall c n script e gu gl os,
@@ -147,6 +192,11 @@ Print Assumptions C05E_ledger_balance.
 Print Assumptions C05E_ledger_step.
 Print Assumptions C05E_at_most_once.
 Print Assumptions C05E_exactly_once_when_drained.
+Print Assumptions C05E_held_was_sent.
+Print Assumptions C05E_potential.
+Print Assumptions C05E_sent_once.
+Print Assumptions C05E_not_resent.
+Print Assumptions C05E_one_copy.
 Print Assumptions C05E_invariant.
 Print Assumptions C05E_attribution.
 Print Assumptions C05E_order.
@@ -163,18 +213,20 @@ Definition esf5 (tick : bool) (ops : list sop) (emit : list (sety * (N * bool * 
    SEU/3 (broadcast) and the independent SEI/4 (to all but client 1).  Client 0: everything arrives, SEU/3 is dropped by
    the channel, SEM/2 is unresolvable.  Client 1: SE0/1 reaches its inbox, SEU/3 is still in flight when it is
    disconnected; it runs a frame, reconnects, and receives SE0/5 of the next tick in its second session. *)
-Definition c05e_script : list estep :=
-  [EBase StStart; EBase (StConnect 0 1200); EBase (StConnect 1 1200);
-   esf5 true [SSpawn 1 true [(0, VNat 5)]]
-        [(SE0, (999, false, false), 1, None); (SEM, (0, false, true), 2, Some 9); (SEU, (999, false, false), 3, None);
-         (SEI, (1, true, false), 4, None)];
-   EBase (StDeliver 0 true 0 All);
+Definition c05e_pre : list estep := [EBase StStart; EBase (StConnect 0 1200); EBase (StConnect 1 1200)].
+Definition c05e_flush : estep :=
+  esf5 true [SSpawn 1 true [(0, VNat 5)]]
+       [(SE0, (999, false, false), 1, None); (SEM, (0, false, true), 2, Some 9); (SEU, (999, false, false), 3, None);
+        (SEI, (1, true, false), 4, None)].
+Definition c05e_rest : list estep :=
+  [EBase (StDeliver 0 true 0 All);
    EDeliverS2C 0 SE0 All false; EDeliverS2C 0 SEM All false; EDeliverS2C 0 SEU All true; EDeliverS2C 0 SEI All false;
    EDeliverS2C 1 SE0 First false;
    ECFrame 0 [] [];
    EBase (StDisconnect 1); ECFrame 1 [] []; EBase (StConnect 1 1200);
    esf5 true [] [(SE0, (999, false, false), 5, None)];
    EDeliverS2C 1 SE0 All false; EBase (StDeliver 1 true 0 All); ECFrame 1 [] []].
+Definition c05e_script : list estep := (c05e_pre ++ [c05e_flush]) ++ c05e_rest.
 
 (* (slot, sequence number) of: session sent, session now, sent, got, unresolvable, discarded, dropped; the links *)
 Definition c05e_view (r : res (syse * cghost * list eout)) :=
@@ -214,4 +266,30 @@ Proof.
   - intros slot cl Hc Hm Hs.
     assert (Hb : tick_frames (proj_script c05e_script) < 2 ^ 31) by (rewrite (proj1 (proj2 C05E_ex_run)); reflexivity).
     exact (proj2 (C05E_order c05e_cfg 2 c05e_script e gu gl os slot cl SE0 (proj1 C05E_ex_run) Hb E Hc Hm Hs eq_refl)).
+Qed.
+
+Example C05E_ex_seqs : seqs_distinct c05e_script.
+Proof. unfold seqs_distinct. vm_compute. repeat constructor; cbn; intuition discriminate. Qed.
+
+(* C05E_sent_once and C05E_one_copy on the run: SE0/1 was flushed to both clients by `c05e_flush` *)
+Example C05E_ex_once :
+  exists e g os, lrun (syse_init c05e_cfg 2) lg_init c05e_script = Ok (e, g, os) /\
+    (forall q slot, (count_seq q (for_slot slot (lt_sent g)) <= 1)%nat) /\
+    (forall slot, slot = 0 \/ slot = 1 ->
+       (count_seq 1 (held_all e slot) + count_seq 1 (for_slot slot (lt_got g)) + count_seq 1 (for_slot slot (lt_unm g))
+        + count_seq 1 (for_slot slot (lt_disc g)) + count_seq 1 (for_slot slot (lt_drop g)))%nat = 1%nat).
+Proof.
+  assert (Hb : tick_frames (proj_script c05e_script) < 2 ^ 31) by (rewrite (proj1 (proj2 C05E_ex_run)); reflexivity).
+  destruct (lrun (syse_init c05e_cfg 2) lg_init c05e_pre) as [[[e1 g1] os1]| |] eqn:E1; [|vm_compute in E1; discriminate..].
+  destruct (syse_step e1 c05e_flush) as [[e2 o2]| |] eqn:E2; [|vm_compute in E1; injection E1 as <- _ _; vm_compute in E2; discriminate..].
+  destruct (lrun e2 (lstep e1 g1 c05e_flush e2 o2) c05e_rest) as [[[e g] os3]| |] eqn:E3;
+    [|vm_compute in E1; injection E1 as <- <- _; vm_compute in E2; injection E2 as <- <-; vm_compute in E3; discriminate..].
+  assert (E : lrun (syse_init c05e_cfg 2) lg_init c05e_script = Ok (e, g, (os1 ++ [o2]) ++ os3)).
+  { unfold c05e_script, lrun in *. rewrite !grun_app, E1. cbn [bind grun]. rewrite E2. cbn [bind]. rewrite E3. reflexivity. }
+  exists e, g, ((os1 ++ [o2]) ++ os3). split; [exact E|]. split.
+  - intros q slot. exact (C05E_sent_once c05e_cfg 2 c05e_script e g _ q slot (proj1 C05E_ex_run) Hb C05E_ex_seqs E).
+  - intros slot Hslot.
+    assert (Hin : In (slot, mkSMsg SE0 (Some 1) 1 None) (eo_sent o2)).
+    { vm_compute in E1. injection E1 as <- _ _. vm_compute in E2. injection E2 as _ <-. destruct Hslot as [-> | ->]; vm_compute; tauto. }
+    exact (proj2 (C05E_one_copy c05e_cfg 2 c05e_pre c05e_flush c05e_rest e1 g1 os1 e2 o2 e g os3 slot _ 1 (proj1 C05E_ex_run) Hb C05E_ex_seqs E1 E2 E3 Hin eq_refl)).
 Qed.
